@@ -88,7 +88,7 @@ def gen_dep(rng, is_dirty):
          "flavor": rng.choice(FLAVORS + [None, None, ""]),
          "tablefile": rng.choice([None, None, "", "none"]) if rng.random() < 0.3 else gen_word(rng, 3, 30) + ".table",
          "instDir": rng.choice([None, None, "", "none"]) if rng.random() < 0.3 else "/".join(gen_word(rng, 1, 8) for _ in range(rng.randint(1, 4))),
-         "distId": None if rng.random() < 0.3 else gen_word(rng, 3, 20),
+         "distId": (None if rng.random() < 0.85 else "search") if rng.random() < 0.3 else gen_word(rng, 3, 20),
          "isOpt": rng.random() < 0.2, "recurse": rng.random() < 0.2,
          "extra": [gen_word(rng) for _ in range(rng.randint(1, 2))] if rng.random() < 0.1 else []}
     if is_dirty:
@@ -201,6 +201,15 @@ def gen_remap(rng):
         if rng.random() < 0.2:
             line += "   # a comment"
         rules.append({"product": p, "inV": inv, "act": act, "out": out, "flavor": fl or "generic", "mode": mode, "line": line})
+    if deps and rng.random() < 0.3:
+        # the order-sensitive pattern: a rule for one version next to a rule for `any` of the same product
+        d = rng.choice(deps)
+        rules = [r for r in rules if r["product"] != d["product"]]
+        fl = rng.choice([None, NATIVE])
+        for inv, out in ((rng.choice(["any", None]), "8.0"), (d["version"], "9.0")):
+            line = d["product"] + (":" + inv if inv else "") + "   " + out + ("  " + fl if fl else "")
+            rules.insert(rng.randint(0, len(rules)), {"product": d["product"], "inV": inv, "act": "version", "out": out,
+                                                      "flavor": fl or "generic", "mode": None, "line": line})
     files = [[], []]
     for r in rules:
         files[rng.randint(0, 1)].append(r)
@@ -404,7 +413,7 @@ def clean_manifest(c):
         for k in ("flavor", "tablefile", "instDir", "distId"):
             if d[k] not in (None, "") and not is_word(d[k]):
                 return False
-        if d["distId"] in ("None", "search", ""):
+        if d["distId"] in ("None", ""):
             return False
     return True
 
@@ -438,7 +447,8 @@ def oracle_manifest(c, io_):
             yield ("manifest_tablefile", None, "entry %d: table file %r read back as %r" % (i, e["tablefile"], g["tablefile"]))
         if none_word(g["instDir"]) != none_word(e["instDir"]):
             yield ("manifest_instdir", None, "entry %d: directory %r read back as %r" % (i, e["instDir"], g["instDir"]))
-        if g["distId"] != e["distId"]:
+        want_id = None if e["distId"] == "search" else e["distId"]      # `search` is the format's word for "no id"
+        if g["distId"] != want_id:
             yield ("manifest_distid", None, "entry %d: distribution id %r read back as %r" % (i, e["distId"], g["distId"]))
 
 
@@ -503,14 +513,16 @@ def oracle_mapping(c, io_):
 
 
 def remap_expected(c, rules, honour_mode):
+    """Rules of one product (all of one flavor, distinct in-versions): the one for the entry's version, else the one
+    for `any`."""
     exp = []
     for d in c["deps"]:
-        rs = [r for r in rules if r["product"] == d["product"]]
-        r = rs[0] if rs else None
-        ok = r is not None and r["flavor"] in ("generic", NATIVE) and \
-            (r["inV"] in (None, "any", "Any") or r["inV"] == d["version"]) and \
-            (not honour_mode or r["mode"] == c["mode"])
-        if not ok:
+        rs = [r for r in rules if r["product"] == d["product"] and r["flavor"] in ("generic", NATIVE) and
+              (not honour_mode or r["mode"] == c["mode"])]
+        exact = [r for r in rs if r["inV"] == d["version"]]
+        anyv = [r for r in rs if r["inV"] in (None, "any", "Any")]
+        r = exact[0] if exact else anyv[0] if anyv else None
+        if r is None:
             exp.append(("same", d))
         elif r["act"] == "delete":
             continue
@@ -518,6 +530,20 @@ def remap_expected(c, rules, honour_mode):
             want = (d["product"], r["out"]) if r["act"] == "version" else tuple(r["out"].split(":"))
             exp.append(("same", d) if want == (d["product"], d["version"]) else ("new", want))
     return exp
+
+
+def remap_simple(rules):
+    """Every product's rules are of one flavor and have distinct in-versions (`any`, `Any` and none count as one)."""
+    by = {}
+    for r in rules:
+        by.setdefault(r["product"], []).append(r)
+    for rs in by.values():
+        if len(set(r["flavor"] for r in rs)) > 1:
+            return False
+        vs = ["any" if r["inV"] in (None, "any", "Any") else r["inV"] for r in rs]
+        if len(vs) != len(set(vs)):
+            return False
+    return True
 
 
 def remap_matches(exp, got):
@@ -533,11 +559,11 @@ def remap_matches(exp, got):
 
 def oracle_remap(c, io_):
     """Entries no rule names stay untouched and in place; an entry named by a rule is replaced, renamed or deleted as
-    the rule says.  Evaluated when every product is named by at most one rule (several rules for one product are left
-    to the correspondence with the model) and the Mapping argument is empty."""
+    the rule says (the rule for the entry's own version before the rule for `any`).  Evaluated when the rules of each
+    product are of one flavor and have distinct in-versions (other tables are left to the correspondence with the
+    model) and the Mapping argument is empty."""
     rules = [r for f in c["rules"] for r in f]
-    prods = [r["product"] for r in rules]
-    if c["adds"] or len(prods) != len(set(prods)):
+    if c["adds"] or not remap_simple(rules):
         return
     if "deps" not in io_:
         yield ("remap_runs", None, "remapEntries raised %s" % io_.get("error"))
@@ -691,12 +717,32 @@ def corpus_cases():
 GEN = {"manifest": gen_manifest, "taglist": gen_taglist, "mapping": gen_mapping, "remap": gen_remap}
 
 
+def enum_mappings():
+    """Every table of one or two rules over 2 products x {1.0, any} x {replace, rename onto the other product, delete}
+    in the generic or the native flavor, queried with every product x {1.0, 2.0} x {generic, native}."""
+    import itertools
+    prods = ["a", "b"]
+    rules = []
+    for p, v, act, fl in itertools.product(prods, ["1.0", "any"], ["replace", "rename", "delete"], ["generic", NATIVE]):
+        other = "b" if p == "a" else "a"
+        outp, outv = (None, "3.0") if act == "replace" else (other, "1.0") if act == "rename" else (None, None)
+        rules.append({"inP": p, "inV": v, "outP": outp, "outV": outv, "flavor": fl, "overwrite": True})
+    queries = [[p, v, f] for p in prods for v in ("1.0", "2.0") for f in ("generic", NATIVE)]
+    out = [{"kind": "mapping", "style": "free", "adds": [r], "queries": queries} for r in rules]
+    out += [{"kind": "mapping", "style": "free", "adds": [r1, r2], "queries": queries}
+            for r1, r2 in itertools.product(rules, repeat=2) if r1 is not r2]
+    return out
+
+
 def run(ctx):
     cases = corpus_cases()
     ctx.hist("corpus", len(cases))
     evaluate(ctx, cases)
-    for kind, n in (("manifest", ctx.n(1000, 50000)), ("taglist", ctx.n(600, 20000)), ("mapping", ctx.n(800, 30000)),
-                    ("remap", ctx.n(600, 20000))):
+    en = enum_mappings()
+    ctx.hist("enumerated-mappings", len(en))
+    evaluate(ctx, en)
+    for kind, n in (("manifest", ctx.n(3000, 60000)), ("taglist", ctx.n(1500, 30000)), ("mapping", ctx.n(2000, 40000)),
+                    ("remap", ctx.n(2000, 40000))):
         done = 0
         while done < n and not ctx.out_of_time():
             k = min(600, n - done)
